@@ -107,6 +107,23 @@ CHECKS = {
         text="systematic enumeration of parameter / budget / threshold / thread-count / method / game combinations, "
              "including the boundary values of every parameter; panics, hangs and crashes are data.",
         note="stride slice of a 15M point lattice; usize::MAX/3 exactly is not exercised"),
+    "C06": dict(
+        category="model_checking", design_ref="4 C06",
+        technique="Par.tla (thread_threshold / tasks / cached root traversal with a workspace persisting across passes) "
+                  "model-checked by TLC over all tree shapes TLC builds itself; every pass of real multi-threaded solves "
+                  "validated against Trace_Par.tla; k threads compared with one thread",
+        text="the model shows for every shape up to 11 nodes, target and 3 consecutive passes that every node is entered "
+             "exactly once, no task is stale and the cache is current (and exhibits the defect of the pinned code when the "
+             "workspace is not cleared); the traces bind the real frontier, task set, visits and cache hits to it.",
+        note="real schedules are sampled; results compared at 1e-9 on generic payoffs"),
+    "C07": dict(
+        category="model_checking", design_ref="4 C07",
+        technique="as C06 on the sampled tree (Par.tla instantiated for Sampled / External with draws as a pure function of "
+                  "infoset and pass, owner assignments enumerated, NoLockConflict); traces under pinned draws validated "
+                  "against Trace_Par.tla; k threads compared with one thread",
+        text="exactly-once visits of the sampled part, at most one draw per infoset and pass at allowed sites only, every "
+             "lock attempt succeeds, frontier as specified; results equal to the single-threaded run under the same draws.",
+        note="draws pinned through the cfr_verif hook; model shapes up to 9 nodes for External"),
 }
 
 NOT_YET = "check not built yet (construction in progress, see DESIGN.md section 9)"
